@@ -55,7 +55,7 @@ static struct wslot * W;
 static int cur_bound;
 static int noting, replay_mode;
 static jmp_buf jb;
-static int in_exec;
+static int in_exec, poisoned;
 /* local counters flushed to vf */
 static uint64_t l_execs, l_complete, l_pruned, l_cut, l_points, l_newpoints, l_maxdepth, l_failed;
 
@@ -73,6 +73,7 @@ flush_counters(void)
 	cname(k, sizeof(k), "max_depth"); vf_setmax(k, l_maxdepth);
 }
 
+void mc_poison(void){ poisoned = 1; }
 int mc_failed(void){ return W ? W->failed : 0; }
 int mc_devs_left(void){ return cur_bound - W->devs; }
 int mc_devs_used(void){ return W->devs; }
@@ -296,6 +297,7 @@ worker(int slot, int resume)
 			while (SH->gq_n < 2 * vf_workers && SH->gq_n < GQCAP && W->sp - W->bot > 1) SH->gq[SH->gq_n++] = W->stack[W->bot++];
 			unlock();
 		}
+		if (poisoned) { flush_counters(); fflush(stdout); _exit(77); }
 		if ((l_execs & 1023) == 0) flush_counters();
 	}
 	flush_counters();
@@ -406,6 +408,12 @@ mc_explore(struct mc_config * cfg)
 			if (WIFEXITED(st) && WEXITSTATUS(st) == 0) { unlink(path); continue; }
 			vf_read_file(path, text, sizeof(text)); unlink(path);
 			if (WIFEXITED(st) && WEXITSTATUS(st) == 3) vf_engine_error("worker engine error: %.600s", text);
+			if (WIFEXITED(st) && WEXITSTATUS(st) == 77) {	/* the harness could not restore a clean state after a violation: fresh process */
+				pid_t np;
+				if ((np = fork()) == 0) worker(i, 1);
+				SH->w[i].pid = np; live++;
+				continue;
+			}
 			/* in-process crash: attribute to the execution in progress */
 			vf_crash_sig(st, text, sig, sizeof(sig));
 			if (strlen(text) > 600) text[600] = 0;
